@@ -8,4 +8,8 @@ func setYieldHook(f func(site int)) {}
 
 func siteName(site int) string { return "none" }
 
+func locksHeld() int { return 0 }
+
+func setLockBlocker(f func(cond func() bool)) {}
+
 const injected = false
